@@ -17,6 +17,7 @@ CHECKS = {
  "C08": dict(engine="symtorch+z3", tech="symbolic execution of the observables' apply on the full basis, exactly weighted, vs Tr(rho O) from Pauli definitions; z3 on residuals", design="2/C08"),
  "C09": dict(engine="symtorch+z3", tech="symbolic execution of SWAP.apply on all ordered pairs, exactly weighted, vs explicit partial trace; sum-of-squares certificate; z3 on residuals", design="2/C09"),
  "C10": dict(engine="symtorch+z3", tech="symbolic execution of fidelity/NLL/KL with symbolic models and symbolic targets vs the defining formulas; opaque logs with normal-form congruence; z3 on residuals", design="2/C10"),
+ "C12": dict(engine="pathfork", level=("model_checking", "Path-by-path symbolic execution of the real fit/callback code: z3 decides the feasibility of every branch on the symbolic inputs (pathfork), every feasible path within the stated bounds is executed on the real code and checked against a reference generator of the documented protocol. Bounded (epoch ranges, batch counts), exhaustive within the bounds."), note="Trusted: vf/pathfork.py (fork-on-branch executor), z3; numerics of the batch update are stubbed (listed in the evidence).", tech="pathfork: z3-decided path exploration of the real fit loop vs a reference protocol generator", design="2/C12"),
  "C15": dict(engine="symtorch+z3", tech="symbolic execution of every cplx function vs complex-scalar arithmetic; z3 on residuals", design="2/C15"),
 }
 CHECKS.update(json.load(open(os.path.join(HERE, "bin", "manifest_extra.json"))) if os.path.exists(os.path.join(HERE, "bin", "manifest_extra.json")) else {})
